@@ -202,7 +202,10 @@ func Graph(r *mon.Rng, maxTypes int) *model.Schema {
 	g.total = n
 	for i := 0; i < n; i++ {
 		var t *model.TypeDef
-		kind := mon.Pick(r, []string{"object", "object", "object", "array", "keystring", "string", "integer", "or", "regex", "enum", "float"})
+		kind := mon.Pick(r, []string{"object", "object", "object", "array", "keystring", "string", "integer", "integer", "or", "regex", "enum", "float", "uarray"})
+		if kind == "uarray" && len(g.scalarTypeIdx(i)) < 2 {
+			kind = "integer"
+		}
 		if i == 0 && kind == "or" {
 			kind = "object"
 		}
@@ -247,7 +250,35 @@ func Graph(r *mon.Rng, maxTypes int) *model.Schema {
 			}
 		case "string":
 			t = &model.TypeDef{Name: tname(i), Root: model.Str(RandomString(r))}
+		case "uarray":
+			// array whose items are unions of (often overlapping) scalar types, with several
+			// example items and item-count rules
+			sc := g.scalarTypeIdx(i)
+			a, b := tname(mon.Pick(r, sc)), tname(mon.Pick(r, sc))
+			first := model.Ref(a, b)
+			if a == b {
+				first = model.Ref(a)
+			}
+			arr := model.Arr(first)
+			switch r.Intn(3) {
+			case 0:
+				arr.Items = append(arr.Items, model.Str("s"))
+			case 1:
+				arr.Items = append(arr.Items, model.Bool(true), model.Ref(b, a))
+			}
+			if r.Bool() {
+				arr.Rules = append(arr.Rules, model.RInt("maxItems", len(arr.Items)+r.Intn(3)))
+			}
+			if r.Chance(1, 3) {
+				arr.Rules = append(arr.Rules, model.RInt("minItems", r.Intn(len(arr.Items)+1)))
+			}
+			t = &model.TypeDef{Name: tname(i), Root: arr}
+			kind = "array"
 		case "integer":
+			if r.Bool() {
+				t = &model.TypeDef{Name: tname(i), Root: model.Int("3").With(model.RNum("min", "0"))}
+				break
+			}
 			t = &model.TypeDef{Name: tname(i), Root: model.Int("5").With(model.RNum("min", "1"), model.RNum("max", "9"))}
 		case "float":
 			t = &model.TypeDef{Name: tname(i), Root: model.Flt("1.5")}
